@@ -2,6 +2,7 @@ package c17
 
 import (
 	"bytes"
+	"context"
 	"encoding/json"
 	"errors"
 	"fmt"
@@ -335,12 +336,27 @@ func (s *stubRT) RoundTrip(req *http.Request) (*http.Response, error) {
 	if spec.Fault == fTransport {
 		return nil, errTransport
 	}
-	var body io.ReadCloser = io.NopCloser(strings.NewReader(spec.Body))
+	// like net/http's transport, the response body can only be read while the request context is alive
+	var body io.ReadCloser = io.NopCloser(&ctxReader{ctx: req.Context(), r: strings.NewReader(spec.Body)})
 	if spec.Fault == fBodyRead {
 		body = io.NopCloser(&failingReader{data: []byte(spec.Body)})
 	}
 	return &http.Response{Status: "200 OK", StatusCode: 200, Proto: "HTTP/1.1", ProtoMajor: 1, ProtoMinor: 1,
 		Header: http.Header{"Content-Type": {"application/json"}}, Body: body, ContentLength: -1, Request: req}, nil
+}
+
+// ctxReader fails with the context's error once the request context is done (what the real
+// transport's body does after cancel): the body must be decoded before the context is released.
+type ctxReader struct {
+	ctx context.Context
+	r   io.Reader
+}
+
+func (c *ctxReader) Read(p []byte) (int, error) {
+	if err := c.ctx.Err(); err != nil {
+		return 0, err
+	}
+	return c.r.Read(p)
 }
 
 func (s *stubRT) count() int {
